@@ -22,7 +22,7 @@ rm -f replays/${PROP}-*.json
 ./check $PROP --tier quick > /tmp/try_mutant.out 2>&1
 echo "check exit=$?"
 tail -12 /tmp/try_mutant.out
-git -C /repo checkout -- .
+git -C /repo checkout -- . && git -C /repo clean -fdq -- geo geo-types
 git -C /repo status --short | head -3
 mkdir -p seeded/$ID
 cp $WT/patch.diff seeded/$ID/patch.diff
